@@ -318,7 +318,7 @@ def execute(ctx):
         cf._no_answer_do_retry = retry
         orig_send = cf.send_packet
 
-        def send(pk, expected_reply=(), resend=False, timeout=0.2):
+        def send(pk, expected_reply=(), resend=False, timeout=0.2, **kw):
             keep.append(pk)
             link = cf.link
             ev.append(('send-begin', sim.now, id(pk), resend))
@@ -326,7 +326,7 @@ def execute(ctx):
                 pattern = (pk.header,) + tuple(expected_reply)
                 model.setdefault(pattern, []).append({'pk': id(pk), 'timeout': timeout, 'session': link.session})
                 req_info[id(pk)] = {'timeout': timeout, 'session': link.session, 'pattern': pattern}
-            return orig_send(pk, expected_reply, resend, timeout)
+            return orig_send(pk, expected_reply, resend, timeout, **kw)
         cf.send_packet = send
         # the table of pending answers is observed at the points where the library reads and changes it (i.e. under the
         # library's own lock): the view the matcher had, what it removed, and which requests a removal answered
